@@ -10,6 +10,7 @@ import (
 	"runtime"
 	"sort"
 	"strings"
+	"sync/atomic"
 	"time"
 	"unicode/utf8"
 
@@ -39,8 +40,49 @@ type callResult struct {
 // the transitions of the closed system (driver + library) that were executed.
 var LibCalls int64
 
+// Blocking watchdog: the step budget turns a library call that loops into a
+// verdict, but a call that WAITS (for a lock, a condition, a channel) executes
+// no statements. callActive/callSince describe the guarded call in progress;
+// StartBlockWatch (called by the worker process) starts a goroutine that ends
+// the process with a fatal-error verdict when one call has been in progress
+// for two minutes without a single statement point being executed during the
+// last minute. (The parent turns a worker that died with "fatal error:" into
+// a violation with a replay note, as it does for runtime fatal errors.)
+var (
+	callActive   int32
+	callSince    int64 // unix nanoseconds
+	watchSuspend int32 // > 0: calls are watched by the caller itself (C05's cumulative stratum)
+)
+
+func StartBlockWatch(limit time.Duration) {
+	go func() {
+		var lastSteps, lastCalls int64 = -1, -1
+		var lastChange time.Time
+		for {
+			time.Sleep(2 * time.Second)
+			steps, calls := atomic.LoadInt64(&mq.VerifSteps), atomic.LoadInt64(&LibCalls)
+			if steps != lastSteps || calls != lastCalls {
+				lastSteps, lastCalls, lastChange = steps, calls, time.Now()
+			}
+			if atomic.LoadInt32(&callActive) == 0 || atomic.LoadInt32(&watchSuspend) > 0 {
+				continue
+			}
+			since := time.Unix(0, atomic.LoadInt64(&callSince))
+			if time.Since(since) >= limit && time.Since(lastChange) >= limit/2 {
+				buf := make([]byte, 1<<16)
+				n := runtime.Stack(buf, true)
+				fmt.Fprintf(os.Stderr, "fatal error: blocked in the library under test: a call into the library has not returned for %d s and no statement of the library was executed during the last %d s (it waits for a lock, a condition or a channel)\n%s\n", int(limit.Seconds()), int(limit.Seconds()/2), buf[:n])
+				os.Exit(3)
+			}
+		}
+	}()
+}
+
 func guarded(budget int64, fn func()) (res callResult) {
 	LibCalls++
+	atomic.StoreInt64(&callSince, time.Now().UnixNano())
+	atomic.StoreInt32(&callActive, 1)
+	defer atomic.StoreInt32(&callActive, 0)
 	tickClock()
 	start := mq.VerifSteps
 	if budget > 0 {
